@@ -88,14 +88,22 @@ fn content_range_field(v: &[u8]) -> Value {
 }
 
 fn content_type_field(v: &[u8]) -> (Value, Option<Vec<u8>>) {
-    let pfx = b"multipart/byteranges; boundary=";
-    if v.starts_with(pfx) && v.len() > pfx.len() {
-        let b = v[pfx.len()..].to_vec();
-        if b.iter().all(|c| c.is_ascii_alphanumeric()) {
-            return (
-                json!({"k": "multipart", "boundary": String::from_utf8_lossy(&b)}),
-                Some(b),
-            );
+    // media type and parameter name are case-insensitive; the boundary may be any RFC 2046 token
+    // (optionally quoted) -- the lexer uses whatever delimiter the header announces
+    let lower: Vec<u8> = v.iter().map(|c| c.to_ascii_lowercase()).collect();
+    let pfx = b"multipart/byteranges";
+    if lower.starts_with(pfx) {
+        if let Some(i) = lower.windows(9).position(|w| w == b"boundary=") {
+            let mut b = v[i + 9..].to_vec();
+            if b.len() >= 2 && b[0] == b'"' && b[b.len() - 1] == b'"' {
+                b = b[1..b.len() - 1].to_vec();
+            }
+            if !b.is_empty() && b.len() <= 70 && b.iter().all(|c| c.is_ascii_alphanumeric() || b"'()+_,-./:=?".contains(c)) {
+                return (
+                    json!({"k": "multipart", "boundary": String::from_utf8_lossy(&b), "blen": b.len()}),
+                    Some(b),
+                );
+            }
         }
     }
     (json!({"k": "other", "v": text_or_hex(v)}), None)
@@ -121,7 +129,7 @@ pub fn project_head(
     };
     let sval = |n: &str| match get1(n) {
         None => none(),
-        Some(v) => json!({"k": "val", "v": text_or_hex(v)}),
+        Some(v) => json!({"k": "val", "v": text_or_hex(v), "lc": String::from_utf8_lossy(v).to_ascii_lowercase()}),
     };
     let allow = match get1("allow") {
         None => none(),
@@ -213,7 +221,9 @@ struct RunSpec<'a> {
 /// Returns the response headers (for echo construction).
 fn run_one(out: &mut Out, case: &Value, rs: &RunSpec) -> Option<http::HeaderMap> {
     // `seg`: the entity hands out multi-segment `Buf`s instead of contiguous `Bytes`
-    if case.get("seg").and_then(|s| s.as_bool()).unwrap_or(false) {
+    if case.get("file").and_then(|s| s.as_bool()).unwrap_or(false) {
+        run_one_file(out, case, rs)
+    } else if case.get("seg").and_then(|s| s.as_bool()).unwrap_or(false) {
         run_one_d::<SegData>(out, case, rs)
     } else {
         run_one_d::<Bytes>(out, case, rs)
@@ -224,6 +234,67 @@ fn run_one_d<D: ChunkData>(out: &mut Out, case: &Value, rs: &RunSpec) -> Option<
     let ent = ScriptedEntity::<D>::from_case(&case["ent"], case.get("scripts"), case.get("dscript"));
     let log = ent.log.clone();
     let ent_hdrs = ent.hdrs.clone();
+    run_entity(out, case, rs, ent, log, ent_hdrs)
+}
+
+/// The entity is a real `ChunkedReadFile` over a temporary file with position-coded content
+/// (ties the range / multipart properties to 64 KiB multi-chunk file streams).
+fn run_one_file(out: &mut Out, case: &Value, rs: &RunSpec) -> Option<http::HeaderMap> {
+    let p = file_path(case);
+    let f = std::fs::File::open(&p).expect("open temp file");
+    let mut hm = http::HeaderMap::new();
+    let mut ent_hdrs = Vec::new();
+    if let Some(a) = case["ent"]["hdrs"].as_array() {
+        for h in a {
+            let k = HeaderName::from_bytes(h[0].as_str().unwrap().as_bytes()).unwrap();
+            let v = HeaderValue::from_bytes(&value_bytes(&h[1])).unwrap();
+            hm.append(k.clone(), v.clone());
+            ent_hdrs.push((k, v));
+        }
+    }
+    let ent: http_serve::ChunkedReadFile<Bytes, BoxError> = http_serve::ChunkedReadFile::new(f, hm).expect("ChunkedReadFile");
+    let log = Arc::new(std::sync::Mutex::new(crate::entity::EnvLog::default()));
+    FILE_RT.with(|rt| rt.block_on(async { run_entity(out, case, rs, ent, log, ent_hdrs) }))
+}
+
+fn file_path(case: &Value) -> std::path::PathBuf {
+    let dir = std::path::PathBuf::from(std::env::var("VH_TMP").unwrap_or_else(|_| "/verif/work/files".to_string()));
+    let _ = std::fs::create_dir_all(&dir);
+    dir.join(format!("s{}_{}", std::process::id(), case["id"].as_u64().unwrap_or(0)))
+}
+
+/// Creates the case's file (position-coded content, explicit mtime) and returns the entity's own
+/// validators as the abstract `ent` record of the req event.
+fn make_case_file(case: &Value) -> Value {
+    let len = from_limbs(&case["ent"]["len"]).unwrap_or(0).min(1 << 22);
+    let p = file_path(case);
+    std::fs::write(&p, crate::entity::content(0, len as usize)).expect("write temp file");
+    let (ms, mns) = (case["ent"]["mt"]["s"].as_u64().unwrap_or(1_000_000_000), case["ent"]["mt"]["ns"].as_u64().unwrap_or(0));
+    let f = std::fs::OpenOptions::new().read(true).write(true).open(&p).expect("open rw");
+    f.set_modified(SystemTime::UNIX_EPOCH + std::time::Duration::new(ms, mns as u32)).expect("set mtime");
+    let crf: http_serve::ChunkedReadFile<Bytes, BoxError> =
+        http_serve::ChunkedReadFile::new(std::fs::File::open(&p).unwrap(), http::HeaderMap::new()).expect("ChunkedReadFile");
+    let etag = http_serve::Entity::etag(&crf).map(|v| String::from_utf8_lossy(v.as_bytes()).to_string()).unwrap_or_default();
+    let op = etag.trim_matches('"').to_string();
+    json!({"etag": {"k": "tag", "w": false, "op": op, "s": etag}, "mt": {"k": "t", "s": ms, "ns": mns, "fut": false}})
+}
+
+thread_local! {
+    static FILE_RT: tokio::runtime::Runtime =
+        tokio::runtime::Builder::new_multi_thread().worker_threads(1).build().expect("runtime");
+}
+
+fn run_entity<En>(
+    out: &mut Out,
+    case: &Value,
+    rs: &RunSpec,
+    ent: En,
+    log: Arc<std::sync::Mutex<crate::entity::EnvLog>>,
+    ent_hdrs: Vec<(HeaderName, HeaderValue)>,
+) -> Option<http::HeaderMap>
+where
+    En: http_serve::Entity<Error = BoxError>,
+{
     let mut req = Request::builder().method(rs.method.clone()).uri("/");
     for (k, v) in &rs.hdrs {
         req = req.header(k.clone(), v.clone());
@@ -471,8 +542,16 @@ pub fn run(cases_path: &str, out_path: &str) {
                     .collect()
             })
             .unwrap_or_default();
-        out.emit(json!({"ev": "req", "method": method_s, "mclass": mclass,
-                        "ent": {"len": case["ent"]["len"], "etag": case["ent"]["etag"], "mt": case["ent"]["mt"],
+        let is_file = case.get("file").and_then(|f| f.as_bool()).unwrap_or(false);
+        let (ent_etag, ent_mt, etagv) = if is_file {
+            let f = make_case_file(case);
+            let ev = text_or_hex(f["etag"]["s"].as_str().unwrap_or("").as_bytes());
+            (f["etag"].clone(), f["mt"].clone(), ev)
+        } else {
+            (case["ent"]["etag"].clone(), case["ent"]["mt"].clone(), etagv)
+        };
+        out.emit(json!({"ev": "req", "method": method_s, "mclass": mclass, "file": is_file,
+                        "ent": {"len": case["ent"]["len"], "etag": ent_etag, "mt": ent_mt,
                                 "nh": nh, "hl": hl, "etagv": etagv, "hdrs": ehdrs},
                         "abs": case["abs"], "cls": case.get("cls").cloned().unwrap_or(json!("")) }));
         let main = RunSpec { run: "main", method: method.clone(), hdrs: hdrs.clone(), echo: json!([]) };
@@ -513,6 +592,11 @@ pub fn run(cases_path: &str, out_path: &str) {
                 echo: json!(applied),
             };
             run_one(&mut out, case, &er);
+        }
+    }
+    for case in &cases {
+        if case.get("file").and_then(|f| f.as_bool()).unwrap_or(false) {
+            let _ = std::fs::remove_file(file_path(case));
         }
     }
     let n = out.events;
